@@ -99,8 +99,15 @@ type stats struct {
 	not64Skipped                                                               atomic.Int64 // jstype override matching a field that is not a 64-bit integer
 	sciOptionLocRemoved, sciStatementRemoved, sciFieldRootRemoved, sciRootKept atomic.Int64
 	sciFilesUntouched                                                          atomic.Int64
-	frameFilesCompared                                                         atomic.Int64
-	parseErrors                                                                atomic.Int64
+	// round 2: (WKT?) x (import?) and the shape of the option list left behind by a swept jstype
+	wktTargetProtected, wktImportProtected atomic.Int64    // a rule applied to a WKT file that is a target / an import
+	importFileRewritten                    atomic.Int64    // governed option rewritten in a non-WKT import file
+	underWKTDirRewritten                   atomic.Int64    // governed option rewritten in a non-WKT file below google/protobuf/
+	sciRootKeptDepth                       [4]atomic.Int64 // root kept; shallowest surviving sibling is 1, 2, >=3 path elements below FieldOptions
+	sciRootKeptDeepOnly                    atomic.Int64    // root kept and EVERY surviving sibling location is >=2 elements below FieldOptions
+	sciRootPseudoOnly                      atomic.Int64    // jstype swept from a list whose other entries are default/json_name only (root goes)
+	frameFilesCompared                     atomic.Int64
+	parseErrors                            atomic.Int64
 }
 
 // caseInfo identifies a case in a violation record.
@@ -215,6 +222,11 @@ func (ck *checker) checkFile(ci caseInfo, m *master, mf *masterFile, after *desc
 		for _, o := range cfg.Overrides {
 			if scopeMatches(o.Path, o.Module, mf.Path, fileLit{Module: mf.Lit.Module}) {
 				ck.st.wktProtected.Add(1)
+				if mf.IsImport {
+					ck.st.wktImportProtected.Add(1)
+				} else {
+					ck.st.wktTargetProtected.Add(1)
+				}
 				return true
 			}
 		}
@@ -233,6 +245,12 @@ func (ck *checker) checkFile(ci caseInfo, m *master, mf *masterFile, after *desc
 		if ck.judge(ci, fam.Value, before, got, e, baseline[fam.Value].Value, fieldOnly) {
 			rewrittenNums[fam.Num] = true
 			ck.st.fileOptRewritten.Add(1)
+			if mf.IsImport {
+				ck.st.importFileRewritten.Add(1)
+			}
+			if strings.HasPrefix(mf.Path, pathWKT+"/") {
+				ck.st.underWKTDirRewritten.Add(1)
+			}
 			nontrivial = true
 			setFileOptState(after, fam, before) // revert, so that the frame comparison below sees only non-governed differences
 		}
@@ -261,7 +279,7 @@ func (ck *checker) checkFile(ci caseInfo, m *master, mf *masterFile, after *desc
 	}
 	// ---- jstype of every field
 	afterFields := collectFields(after)
-	var rewrittenFieldPaths [][]int32
+	var rewrittenFields []int
 	if len(afterFields) != len(mf.Fields) {
 		ck.r.Violate("frame/field-set-changed", fmt.Sprintf("%s: %d fields before, %d after", mf.Path, len(mf.Fields), len(afterFields)), ci)
 	} else {
@@ -278,7 +296,10 @@ func (ck *checker) checkFile(ci caseInfo, m *master, mf *masterFile, after *desc
 			if ck.judge(fci, jstype, before, got, e, "", false) {
 				ck.st.jstypeRewritten.Add(1)
 				nontrivial = true
-				rewrittenFieldPaths = append(rewrittenFieldPaths, info.Path)
+				rewrittenFields = append(rewrittenFields, i)
+				if mf.IsImport {
+					ck.st.importFileRewritten.Add(1)
+				}
 				setJSTypeState(afterFields[i], before)
 				if beforeFields[i].Options == nil && afterFields[i].Options != nil && proto.Size(afterFields[i].Options) == 0 {
 					afterFields[i].Options = nil
@@ -323,7 +344,7 @@ func (ck *checker) checkFile(ci caseInfo, m *master, mf *masterFile, after *desc
 		ck.r.Violate(sig, "something other than a governed option differs from the input: "+ci2.Details, ci2)
 	}
 	// ---- source info
-	ck.checkSCI(ci, mf, afterSCI, rewrittenNums, rewrittenFieldPaths)
+	ck.checkSCI(ci, mf, afterSCI, rewrittenNums, rewrittenFields)
 	return nontrivial
 }
 
@@ -347,6 +368,10 @@ func firstDiff(a, b proto.Message) string {
 		reduce(ca.ProtoReflect())
 		reduce(cb.ProtoReflect())
 		if !proto.Equal(ca, cb) {
+			if f.Message() != nil && !f.IsList() && !f.IsMap() && ra.Has(f) && rb.Has(f) {
+				// a singular sub-message (the options): name the differing field inside it
+				return fmt.Sprintf("field %s: %s", f.Name(), firstDiff(ra.Get(f).Message().Interface(), rb.Get(f).Message().Interface()))
+			}
 			sa, sb := fmt.Sprint(ra.Get(f).Interface()), fmt.Sprint(rb.Get(f).Interface())
 			if len(sa) > 300 {
 				sa = sa[:300] + "…"
@@ -408,7 +433,7 @@ func (mf *masterFile) role(i int) string {
 // checkSCI: the locations removed from the file's SourceCodeInfo must be exactly those of the rewritten
 // options: `[8,N]` plus the `[8]` of its `option` statement for a file option; `<field>,8,6` for jstype, plus
 // `<field>,8` when the removal leaves the field's option list without any location.
-func (ck *checker) checkSCI(ci caseInfo, mf *masterFile, after *descriptorpb.SourceCodeInfo, rewrittenNums map[int32]bool, rewrittenFieldPaths [][]int32) {
+func (ck *checker) checkSCI(ci caseInfo, mf *masterFile, after *descriptorpb.SourceCodeInfo, rewrittenNums map[int32]bool, rewrittenFields []int) {
 	before := mf.Desc.SourceCodeInfo
 	if before == nil {
 		if after != nil {
@@ -429,34 +454,34 @@ func (ck *checker) checkSCI(ci caseInfo, mf *masterFile, after *descriptorpb.Sou
 			ck.st.sciStatementRemoved.Add(1)
 		}
 	}
-	for _, fp := range rewrittenFieldPaths {
-		root := pathKey(fp) + ",8"
-		opt := root + ",6"
-		removedOne := false
-		for i, k := range mf.LocKeys {
-			if k == opt {
+	for _, fi := range rewrittenFields {
+		fl := &mf.FieldLocs[fi]
+		if len(fl.JSType) == 0 {
+			continue // jstype was not written in the source: nothing of this field has a location to lose
+		}
+		for _, i := range fl.JSType {
+			expected[i] = true
+			ck.st.sciOptionLocRemoved.Add(1)
+		}
+		// the `[...]` location goes iff no option location below it is left (Other never holds a removed one:
+		// the only governed field option is jstype)
+		if len(fl.Other) > 0 {
+			ck.st.sciRootKept.Add(int64(len(fl.Root)))
+			d := fl.MinOtherDepth
+			if d > 3 {
+				d = 3
+			}
+			ck.st.sciRootKeptDepth[d].Add(1)
+			if fl.MinOtherDepth >= 2 {
+				ck.st.sciRootKeptDeepOnly.Add(1)
+			}
+		} else {
+			for _, i := range fl.Root {
 				expected[i] = true
-				removedOne = true
-				ck.st.sciOptionLocRemoved.Add(1)
+				ck.st.sciFieldRootRemoved.Add(1)
 			}
-		}
-		if !removedOne {
-			continue
-		}
-		left := false
-		for i, k := range mf.LocKeys {
-			if strings.HasPrefix(k, root+",") && !expected[i] {
-				left = true
-			}
-		}
-		for i, k := range mf.LocKeys {
-			if k == root {
-				if left {
-					ck.st.sciRootKept.Add(1)
-				} else {
-					expected[i] = true
-					ck.st.sciFieldRootRemoved.Add(1)
-				}
+			if fl.Pseudo {
+				ck.st.sciRootPseudoOnly.Add(1)
 			}
 		}
 	}
@@ -485,13 +510,25 @@ func (ck *checker) checkSCI(ci caseInfo, mf *masterFile, after *descriptorpb.Sou
 		l := before.Location[i]
 		ci2 := ci
 		if actual[i] {
-			ci2.Details = fmt.Sprintf("location #%d path %v span %v was removed; rewritten file options %v, rewritten field paths %v", i, l.Path, l.Span, sortedNums(rewrittenNums), rewrittenFieldPaths)
+			ci2.Details = fmt.Sprintf("location #%d path %v span %v was removed; rewritten file options %v, rewritten fields %v", i, l.Path, l.Span, sortedNums(rewrittenNums), mf.fieldNames(rewrittenFields))
 			ck.r.Violate("srcinfo/extra-removed/"+mf.role(i), mf.Path+": a source location was removed that does not belong to a rewritten option: "+ci2.Details, ci2)
 		} else {
-			ci2.Details = fmt.Sprintf("location #%d path %v span %v was kept; rewritten file options %v, rewritten field paths %v", i, l.Path, l.Span, sortedNums(rewrittenNums), rewrittenFieldPaths)
+			ci2.Details = fmt.Sprintf("location #%d path %v span %v was kept; rewritten file options %v, rewritten fields %v", i, l.Path, l.Span, sortedNums(rewrittenNums), mf.fieldNames(rewrittenFields))
 			ck.r.Violate("srcinfo/not-removed/"+mf.role(i), mf.Path+": the source location of a rewritten option (or its emptied parent) was kept: "+ci2.Details, ci2)
 		}
 	}
+}
+
+func (mf *masterFile) fieldNames(idx []int) []string {
+	out := make([]string, 0, len(idx))
+	for n, i := range idx {
+		if n == 8 {
+			out = append(out, fmt.Sprintf("... %d more", len(idx)-n))
+			break
+		}
+		out = append(out, mf.Fields[i].FullName)
+	}
+	return out
 }
 
 func sortedNums(m map[int32]bool) []int32 {
